@@ -292,6 +292,10 @@ def four_d(mon: Monitor, rng: random.Random, n: int) -> None:
 
     for _ in range(n):
         src, dst, k0, _l = pairs.same_crs_pair(rng, kind=rng.choice(["shift", "partial", "contained", "mirror", "scale"]), binary_exact=True, max_n=24)
+        sa_ = gen.aff6(src.affine)
+        if k0 == "scale" and abs(sa_[0]) == 1 and abs(sa_[4]) == 1 and float(sa_[2]).is_integer() and float(sa_[5]).is_integer():
+            mon.skip("chunked==whole", "exact ties on a unit-pixel source at whole-number corners (see D35): either neighbour is a nearest neighbour")
+            continue
         H, W = src.shape
         nt, nb = rng.choice([(2, 2), (2, 3), (3, 2), (1, 2), (2, 1)])
         dtype = rng.choice(["int16", "float32", "uint8"])
